@@ -533,8 +533,8 @@ func Spec() *mon.Spec {
 		},
 		ChildSetup: func(e *mon.Env) { caller = numcall.New() },
 		Phases: []mon.Phase{
-			{Name: "direct", Quick: 5000, Thorough: 120000, Batch: 250, Run: func(c *mon.Case) { runCalls(c, false) }},
-			{Name: "source", Quick: 700, Thorough: 14000, Batch: 44, Run: func(c *mon.Case) { runCalls(c, true) }},
+			{Name: "direct", Quick: 20000, Thorough: 120000, Batch: 250, Run: func(c *mon.Case) { runCalls(c, false) }},
+			{Name: "source", Quick: 2000, Thorough: 14000, Batch: 44, Run: func(c *mon.Case) { runCalls(c, true) }},
 		},
 		Floors: map[string]int{
 			"distinct_nontrivial": 40000, "calls_+": 5000, "calls_-": 5000, "calls_*": 5000, "calls_/": 5000, "calls_%": 7000,
